@@ -321,9 +321,41 @@ pub fn run_unit(u: &Unit, core: usize, ctx: &RunCtx) {
                 }
             };
             let dec = decode_decisions(r["d"].as_str().unwrap(), r["c"].as_str().unwrap());
+            let panicked = !r["pan"].as_array().map(|a| a.is_empty()).unwrap_or(true);
+            if panicked && u.death_is_violation && r["v"].is_null() {
+                // "does not panic" is part of the property this unit decides
+                st.executions += 1;
+                let f = Found {
+                    prop: ctx.prop.clone(),
+                    kind: "panic".to_string(),
+                    detail: format!("a thread of the program panicked: {}{}", r["pan"], if u.dbg { " (build with debug assertions)" } else { "" }),
+                    op: String::new(),
+                    scenario: u.scenario.clone(),
+                    params: u.params.clone(),
+                    case,
+                    choices: r["c"].as_str().unwrap_or("").to_string(),
+                    hash: r["h"].as_str().unwrap_or("").to_string(),
+                    bound: u.bound,
+                };
+                let ki = ctx.known.iter().position(|k| known_match(k, &f.prop, &f.scenario, &f.kind));
+                let mut a = ctx.agg.lock().unwrap();
+                match ki {
+                    Some(i) => *a.known_hits.entry(i).or_insert(0) += 1,
+                    None => {
+                        a.found.push(f);
+                        if a.found.len() >= ctx.max_violations {
+                            a.stop = true;
+                        }
+                        st.capped = true;
+                        drop(a);
+                        break 'cases;
+                    }
+                }
+                continue;
+            }
             let problem = r["div"].as_bool().unwrap_or(false)
                 || r["to"].as_bool().unwrap_or(false)
-                || !r["pan"].as_array().map(|a| a.is_empty()).unwrap_or(true);
+                || panicked;
             if problem {
                 ctx.agg.lock().unwrap().machinery.push(format!(
                     "{} [{}] case {} prefix {}: diverged={} timed_out={} panics={}",
